@@ -461,7 +461,7 @@ func init() { registerReplay("C13", propC13) }
 
 const c13Rule = "exhaustive grid {httpgrpc.Server, HandleServices} x {http, https (httptest TLS server)} + in-process x {no creds, creds not requiring security, creds requiring it, creds returning an error} x {unary, stream} x {0,1,2 grpc.Peer options} x {grpc.Header or not}, then rapid-generated credential maps (empty, disjoint, overlapping caller keys) and caller metadata; " +
 	"oracle: security required over http => failure with 0 requests through a counting RoundTripper; credential error => that error, 0 requests; otherwise handler metadata per key = multiset union of caller and credential values with the caller's order kept; grpc.Peer = server host:port and TLSInfo with completed handshake iff https (unary and stream); handler peer likewise; in-process peers have network inproc; " +
-	"also generated since the seeded rounds: credential keys spelled with capitals, failing handlers, caller metadata partly attached with AppendToOutgoingContext, base URL host forms ([::1]:port, name:port, name without port); " +
+	"also generated since the seeded rounds: credential keys spelled with capitals, failing handlers, caller metadata partly attached with AppendToOutgoingContext, base URL host forms ([::1]:port, name:port, name without port), an earlier second credentials option (the later one is in force; a credential requiring security never crosses plain http), the per-method HTTP server form; " +
 	"non-trivial = credentials present or https; distinct by case hash"
 
 func TestC13(t *testing.T) {
